@@ -55,6 +55,9 @@ STATIONS = ["placeholder", "shared", "own"]
 RELATIONS = ["same-username", "same-login", "same-pid", "same-both", "same-all"]
 
 
+# bound on event-loop turns per simulated session (a login session takes a few thousand; see sim.VLoop.max_turns)
+MAX_TURNS = 2_000_000
+
 def key_of(sess, j, station):
     if sess.get("same_key"): return ONE_KEY
     return SHARED_KEY if station == "shared" else KEYS[j]
@@ -277,7 +280,7 @@ def run_multi(sess):
         B.kerberos.ClientTicket.decrypt = classmethod(decrypt_rec)
         B.prudp.PRUDPServerStream.process_login_request = plr_rec
         try:
-            sim.run(main())
+            (setattr(sim.loop, "max_turns", MAX_TURNS), sim.run(main()))[1]
         except BaseException as e:
             if isinstance(e, (KeyboardInterrupt, SystemExit)): raise
             out["error"] = B.exc_name(e)
